@@ -203,6 +203,16 @@ def removeBDRaw (o : Int) (b : BTD) : TD :=
      (p.1.1, stack (((List.range b.size).map b.sample).map (fun l => (l.getD p.2 default).2))
         (leafOutPos o ((((List.range b.size).map b.sample).headD []).getD p.2 default).2.shape.length)))⟩
 
+/-! ### nested tensordicts of the output with more batch dimensions than their parent -/
+
+/-- a nested node of the output whose batch size is `parent.batch ++ ext`: `_remove_batch_dim` /
+`_maybe_remove_batch_dim` hand the *already normalised* `out_dim` down, so the vmap size is inserted at
+the same position as in the parent -/
+def removeBDNode (o size : Nat) (nb : Shape) : Shape := nb.insertIdx o size
+
+/-- handing the raw (negative) `out_dim` down instead: the node would normalise it against its own, larger rank -/
+def removeBDNodeRaw (o : Int) (size : Nat) (nb : Shape) : Shape := nb.insertIdx (normOutDim o nb.length) size
+
 /-- every leaf's leading dimensions are the batch size -/
 def TD.coherentB (td : TD) : Bool := td.leaves.all (fun p => p.2.shape.take td.batch.length == td.batch)
 def TD.Coherent (td : TD) : Prop := ∀ p ∈ td.leaves, p.2.shape.take td.batch.length = td.batch
